@@ -1,7 +1,8 @@
 (* CodeEqC07.v — the hand-written models of the real-coded DE operators (DEOps.v) are EQUAL to the definitions
    generated from utils/crossovers.py (binomial), utils/mutations.py (the DE strategies),
    optimizers/_differentialevolution.py (bounds_control) and optimizers/_shade.py (bounds_control_mean). *)
-From TF Require Import Py PyLemmas DEOps RandomPrimsProofs CodeEqC11 CodeEqC06.
+From TF Require Import Py PyLemmas DEOps RandomPrimsProofs RandomPrimsProofs2 CodeEqC11 CodeEqC06.
+Open Scope Z_scope.
 From TFG Require Import GenCode.
 Open Scope Z_scope.
 
@@ -261,3 +262,105 @@ Theorem src_best_1_donor cur best pop F ds d ds' :
   exists rs, length rs = 2%nat /\ NoDup rs /\
     Forall (fun v => 0 <= v < Z.of_nat (length pop)) rs /\ d = donor_of 0 cur best pop F rs.
 Proof. intros Hv Hk Hu Hc H. rewrite code_best_1 in H by auto. exact (donor_formula 0 cur best pop F ds d ds' Hv H). Qed.
+
+(* ---------- current_to_pbest_1_archive_p_min (SHADE) ---------- *)
+Lemma Qtrunc_floor q : 0 <= Qnum q -> Qtrunc q = Qfloor' q.
+Proof. intro H. unfold Qtrunc, Qfloor'. apply Z.quot_div_nonneg; lia. Qed.
+
+Lemma Qfloor'_nonneg q : (0 <= q)%Q -> 0 <= Qfloor' q.
+Proof. intro H. unfold Qfloor'. apply Z.div_pos; [|lia]. unfold Qle in H. simpl in H. lia. Qed.
+
+Lemma firstn_min {A} (l : list A) n : firstn (Nat.min n (length l)) l = firstn n l.
+Proof.
+  destruct (Nat.le_ge_cases n (length l)) as [H|H].
+  - now rewrite Nat.min_l.
+  - rewrite Nat.min_r by lia. now rewrite firstn_all, firstn_all2.
+Qed.
+
+Lemma popXs_one ds : popXs 1 ds = bind popX (fun x => ret [x]) ds.
+Proof. unfold popXs. change (Z.to_nat 1) with 1%nat. cbn [popXs_nat]. rewrite !bind_app. destruct (popX ds) as [[x ds1]|]; reflexivity. Qed.
+
+Lemma popI_valid n ds v ds' : valid_draws ds -> popI n ds = Some (v, ds') -> 0 <= v < n /\ valid_draws ds'.
+Proof.
+  intros Hv H. unfold popI in H. destruct ds as [|[u|m w|x] ds]; try discriminate.
+  destruct (m =? n) eqn:E; [|discriminate]. apply Z.eqb_eq in E. subst m. inversion H; subst.
+  inversion Hv as [|? ? Hd Hv']; subst. cbn in Hd. auto.
+Qed.
+
+Theorem code_current_to_pbest cur pop pbest F archive ds :
+  valid_draws ds -> (0 < length pop)%nat ->
+  uniform_rows (length cur) pop -> uniform_rows (length cur) archive ->
+  Forall (fun v => 0 <= v < Z.of_nat (length pop)) pbest ->
+  py_current_to_pbest_1_archive_p_min cur pop pbest F archive ds = current_to_pbest cur pop pbest F archive ds.
+Proof.
+  intros Hv Hpop Hu Hua Hpb. unfold py_current_to_pbest_1_archive_p_min, current_to_pbest, py_uniform. cbv zeta.
+  unfold uniform_rows, vec in *.
+  rewrite !bind_app, popXs_one, bind_app.
+  destruct ds as [|[u|m w|p_i] ds]; try reflexivity. cbn [popX].
+  assert (Hv1 : valid_draws ds) by (inversion Hv; assumption).
+  rewrite ret_app, ret_app, getQ_0. cbn [nth].
+  (* the cut *)
+  set (x := (p_i * ZtoQ (zlen pop))%Q).
+  assert (Hxdef : x = (p_i * inject_Z (Z.of_nat (length pop)))%Q) by reflexivity. clearbody x.
+  assert (Hx : Qmaxq (ZtoQ 1) x = if Qltb 1 x then x else 1%Q) by reflexivity.
+  assert (Hnum : 0 <= Qnum (if Qltb 1 x then x else 1%Q)).
+  { destruct (Qltb 1 x) eqn:E; [|simpl; lia]. apply Qltb_lt in E. unfold Qlt in E. simpl in E. lia. }
+  rewrite Hx, (Qtrunc_floor _ Hnum).
+  assert (Hfl : 0 <= Qfloor' (if Qltb 1 x then x else 1%Q)).
+  { apply Qfloor'_nonneg. destruct (Qltb 1 x) eqn:E; [|discriminate]. apply Qltb_lt in E. apply Qlt_le_weak. eapply Qlt_trans; [|exact E]. reflexivity. }
+  unfold sliceTo. rewrite (pyidx_nonneg _ _ Hfl).
+  assert (Hcut : firstn (Z.to_nat (Qfloor' (if Qltb 1 x then x else 1%Q))) pbest
+               = firstn (pbest_cut_len p_i (length pop) (length pbest)) pbest).
+  { unfold pbest_cut_len. rewrite firstn_min, <- Hxdef. reflexivity. }
+  rewrite Hcut. set (cut := firstn (pbest_cut_len p_i (length pop) (length pbest)) pbest).
+  assert (Hcutr : Forall (fun v => 0 <= v < Z.of_nat (length pop)) cut).
+  { unfold cut. rewrite Forall_forall in *. intros v Hin. apply Hpb. eapply In_firstn; eauto. }
+  (* the index into the cut *)
+  rewrite bind_app.
+  pose proof (code_randint 0 (zlen cut) 1 ds) as Hri. simpl (Z.of_nat 1) in Hri. rewrite Hri. clear Hri.
+  unfold zlen at 1. rewrite bind_app, randint_one, bind_app.
+  destruct ds as [|[u|m w|y] ds]; try reflexivity. cbn [popU].
+  assert (Hu01 : (0 <= u)%Q /\ valid_draws ds) by (inversion Hv1 as [|? ? Hd Hv']; subst; cbn in Hd; tauto).
+  destruct Hu01 as [Hu0 Hv2].
+  rewrite !ret_app. rewrite !getZ_0. cbn [nth].
+  set (k := 0 + Qfloor' (inject_Z (Z.of_nat (length cut) - 0) * u)).
+  assert (Hk : 0 <= k).
+  { unfold k. rewrite Z.add_0_l. apply Qfloor'_nonneg. apply Qmult_le_0_compat; [|exact Hu0].
+    unfold Qle, inject_Z. simpl. lia. }
+  rewrite (getZ_nonneg _ _ Hk).
+  assert (Hb : 0 <= nth (Z.to_nat k) cut 0 < Z.of_nat (length pop)).
+  { destruct (Nat.lt_ge_cases (Z.to_nat k) (length cut)) as [Hlt|Hge].
+    - rewrite Forall_forall in Hcutr. apply Hcutr, nth_In. exact Hlt.
+    - rewrite nth_overflow by lia. lia. }
+  destruct (row_ok (length cur) pop _ Hu Hb) as [Hrow Hrl]. rewrite Hrow.
+  (* r1, r2 *)
+  rewrite !bind_app.
+  pose proof (code_random_sample (zlen pop) 1 true ds (or_introl eq_refl)) as H1. simpl (Z.of_nat 1) in H1. rewrite H1. clear H1.
+  rewrite random_sample_one, bind_app. unfold zlen at 1.
+  destruct (popI (Z.of_nat (length pop)) ds) as [[r1 ds3]|] eqn:E1; [|reflexivity].
+  destruct (popI_valid _ _ _ _ Hv2 E1) as [Hr1 Hv3].
+  rewrite ret_app, getZ_0. cbn [nth]. rewrite !bind_app.
+  pose proof (code_random_sample (zlen archive) 1 true ds3 (or_introl eq_refl)) as H2. simpl (Z.of_nat 1) in H2. rewrite H2. clear H2.
+  rewrite random_sample_one, bind_app. unfold zlen at 1.
+  destruct (popI (Z.of_nat (length archive)) ds3) as [[r2 ds4]|] eqn:E2; [|reflexivity].
+  destruct (popI_valid _ _ _ _ Hv3 E2) as [Hr2 Hv4].
+  rewrite !ret_app, getZ_0. cbn [nth]. f_equal. f_equal.
+  destruct (row_ok (length cur) pop _ Hu Hr1) as [Hrow1 Hrl1].
+  destruct (row_ok (length cur) archive _ Hua Hr2) as [Hrow2 Hrl2].
+  rewrite Hrow1, Hrow2. unfold vec in *. apply lin5_eq; congruence.
+Qed.
+
+Theorem src_current_to_pbest_shape cur pop pbest F archive ds d ds' :
+  valid_draws ds -> (0 < length pop)%nat ->
+  uniform_rows (length cur) pop -> uniform_rows (length cur) archive ->
+  Forall (fun v => 0 <= v < Z.of_nat (length pop)) pbest ->
+  py_current_to_pbest_1_archive_p_min cur pop pbest F archive ds = Some (d, ds') -> length d = length cur.
+Proof.
+  intros Hv Hp Hu Hua Hpb H. rewrite code_current_to_pbest in H by assumption.
+  unfold current_to_pbest in H. rewrite !bind_app in H.
+  destruct (popX ds) as [[p_i ds1]|]; [|discriminate]. rewrite bind_app in H.
+  destruct (randint 0 _ 1 ds1) as [[ks ds2]|]; [|discriminate]. rewrite bind_app in H.
+  destruct (popI _ ds2) as [[r1 ds3]|]; [|discriminate]. rewrite bind_app in H.
+  destruct (popI _ ds3) as [[r2 ds4]|]; [|discriminate]. rewrite ret_app in H. inversion H; subst.
+  unfold lin5. apply vbuild_length.
+Qed.
